@@ -60,6 +60,7 @@ def analyse(ctx):
     add('nsync_sem_wait_with_cancel_', 'nsync_sem_wait_with_cancel_', [W, TOP, TOP, NOTE], [W, NOTE])
     runs = []
     for label, fn, args, nn, ghost in E:
+        eng.track_writes = label.startswith(('nsync_note_new', 'nsync_counter_new'))      # C19.R3 (constructors only: keeps other state spaces unchanged)
         exits = eng.run(fn, args, nn=nn, ghost=ghost, label=label)
         runs.append((label, fn, exits))
     _CACHE[key] = (eng, runs)
